@@ -193,6 +193,28 @@ func checkC11(c *Ctx) (int, error) {
 			}
 		}
 	}
+	// streams whose FINAL block is a Huffman block that ends just behind a full output window, with
+	// the end-of-block code ending at every bit position of the last byte: once the last byte has
+	// arrived, the rest of the stream is in the Reader's bit buffer, not in its input buffer
+	for _, base := range []int{65536, 98304} {
+		for d := -2; d <= 4; d++ {
+			for m := 0; m < 8; m++ {
+				b := finalFixedLiterals(base+d, m)
+				st := RStream{Hex: hexOf(b)}
+				for ai, after := range []string{"block", "error"} {
+					sk := []RSource{{Kind: "plain"}, {Kind: "bufio", BufSize: 4096}}[(m+ai)%2]
+					src := sk
+					src.Chunks, src.FailAt, src.Released, src.After = [][]int{{0}, {4096}, {1}}[(m+d+2)%3], -1, len(b), after
+					cs := &RCase{ID: fmt.Sprintf("C11-%d", id), Kind: "flate", Arch: c.Levels[id%len(c.Levels)],
+						Tag:  fmt.Sprintf("flate-synth-fixedfinal|%d%+d/%d|at-end|%s|%s", base, d, m, after, srcTag(sk)),
+						Segs: []RSeg{{Stream: st, Src: src, Reads: readSchedules[id%len(readSchedules)], Multi: true}}}
+					id++
+					cases = append(cases, cs)
+					c.ev.nontrivial(cs.Tag)
+				}
+			}
+		}
+	}
 	c.ev.Rule = fmt.Sprintf("%d streams per kind (flate, gzip, zlib) with two Flush points; the source releases the bytes up to each sync point / the stream end in chunks {all,1,3,4096} and then would block or fails; sources {plain, bufio 4096, bufio 64}; judged at the gate and at the final result; distinct by (stream, prefix, after, chunking, source)", n)
 	c.ev.Exhaustive = true
 	for _, cs := range spread(cases) {
